@@ -313,8 +313,8 @@ impl Property for C02 {
     const ID: &'static str = "C02";
     fn rule(&self) -> String {
         "cases: 32-byte strings (near-miss families of valid encodings produced by the model: s+kq aliases, q-s, single-bit flips, high bits, \
-         s+1, absolute boundary values, uniform, uniform below 2^253) and slices of every length 0..=80 built from valid encodings; each is fed \
-         to every decoding entry point of both configurations (12 ark + 6 min) and compared with the model's decodeSpec verdict and point. \
+         s+1, absolute boundary values, uniform, uniform below 2^253, strings that tie with q in their top limbs, strings solved from structured intermediate values of decoding) and slices of every length 0..=80 and of lengths that wrap a narrow integer (288, 544, 65568) built from valid encodings; each is fed \
+         to every decoding entry point of both configurations (14 ark incl. interrupted and fragmented readers, containers and the unchecked mode when implemented, + 6 min) and compared with the model's decodeSpec verdict and point. \
          Non-trivial: the string comes from a near-miss family (not uniform) or has length != 32; distinct by digest"
             .into()
     }
